@@ -274,7 +274,7 @@ func main() {
 		timeout := fs.Int("timeout-ms", 60000, "per-query solver timeout")
 		seed := fs.Int("seed", 0, "seed")
 		budget := fs.Int("budget-s", 0, "wall budget per harness (0 = none)")
-		slv := fs.String("solver", "z3", "z3 | z3-new | cvc5")
+		slv := fs.String("solver", "z3-new", "z3 | z3-new | cvc5")
 		outp := fs.String("out", "", "write JSON result here (default stdout)")
 		fs.Parse(os.Args[2:])
 		res := runHarnesses(runConfig{Pkg: *pkg, HarnessDir: *hdir, Funcs: strings.Split(*funcs, ","), TimeoutMs: *timeout, Seed: *seed, BudgetS: *budget, Solver: *slv})
@@ -294,7 +294,7 @@ func main() {
 		hdir := fs.String("harness", "", "")
 		timeout := fs.Int("timeout-ms", 60000, "")
 		seed := fs.Int("seed", 0, "")
-		slv := fs.String("solver", "z3", "")
+		slv := fs.String("solver", "z3-new", "")
 		fs.Parse(os.Args[2:])
 		os.Exit(cmdWorker(runConfig{Pkg: *pkg, HarnessDir: *hdir, TimeoutMs: *timeout, Seed: *seed, Solver: *slv}))
 	case "pinned":
